@@ -1,7 +1,7 @@
 # Various node visitors to clean up nested function calls of various types.
 import ast
 import copy
-from typing import List, Tuple, Union, cast
+from typing import List, Optional, Tuple, Union, cast
 
 from func_adl.ast.call_stack import argument_stack, stack_frame
 from func_adl.ast.func_adl_ast_utils import (
@@ -133,6 +133,8 @@ class simplify_chained_calls(FuncADLNodeTransformer):
 
     def __init__(self):
         self._arg_stack = argument_stack()
+        # The `obj.method` node of the method call being visited, if any
+        self._method_head: Optional[ast.AST] = None
 
     def visit_Select_of_Select(self, parent: ast.Call, selection: ast.Lambda):
         r"""
@@ -454,6 +456,8 @@ class simplify_chained_calls(FuncADLNodeTransformer):
         elif _is_method_call_on_first(call_node):
             return self.select_method_call_on_first(call_node)
         else:
+            # `obj.method(...)`: the `obj.method` part is not a value to be taken out of a `First`
+            self._method_head = call_node.func
             return FuncADLNodeTransformer.visit_Call(self, call_node)
 
     def visit_Subscript_Tuple(self, v: ast.Tuple, s: ast.Constant):
@@ -590,6 +594,8 @@ class simplify_chained_calls(FuncADLNodeTransformer):
         Otherwise, we need to make sure to make a new version of the Attribute so it does
         not get reused'
         """
+        is_method_head = node is self._method_head
+        self._method_head = None
         if is_call_of(node.value, "First"):
             return self.visit_Attribute_Of_First(node.value.args[0], node.attr)  # type: ignore
 
@@ -598,5 +604,11 @@ class simplify_chained_calls(FuncADLNodeTransformer):
             r = self.visit_Subscript_Dict_with_value(visited_value, node.attr)
             if r is not None:
                 return r
+
+        # The value may have become a `First` only now (e.g. an argument that was replaced)
+        if is_call_of(visited_value, "First") and not is_method_head:
+            return self.visit_Attribute_Of_First(
+                visited_value.args[0], node.attr  # type: ignore
+            )
 
         return ast.Attribute(value=visited_value, attr=node.attr, ctx=ast.Load())
